@@ -399,6 +399,14 @@ class RollWorld:
         mf = self.by_name.get(fnm)
         if mf is None or not isinstance(off, int):
             return None
+        if self.mode != 'bin':
+            # a position strictly inside a record (tell() at the end of the log while that record was only partially on
+            # disk) stands for the start of that record: delivering it whole is the only answer that neither tears nor
+            # loses it
+            for (o, e, _, _) in mf.recs:
+                if o < off < e:
+                    self.probe('position_inside_record')
+                    return (mf.idx, o)
         return (mf.idx, off)
 
     def describe_gap(self, gap):
